@@ -400,6 +400,10 @@ func rowFromLiteral(p *packages.Package, fd *ast.FuncDecl, name string, cl *ast.
 					}
 				}
 			}
+			if id, ok := val.(*ast.Ident); ok {
+				// a Go type obtained from a helper next to the reader
+				row.TypSig = derivedFrom(p, fd, id, "Parse")
+			}
 		case "marshal", "unmarshal":
 			// the primitive named by the emitter: a string operand (literal, constant,
 			// local or parameter-derived) of the form [basic.]Write… / Read… / NewValue
@@ -451,8 +455,13 @@ func derivedFrom(p *packages.Package, fd *ast.FuncDecl, id *ast.Ident, fn string
 		if !ok || len(as.Rhs) != 1 || len(as.Lhs) == 0 {
 			return true
 		}
-		l, ok := as.Lhs[0].(*ast.Ident)
-		if !ok || p.TypesInfo.ObjectOf(l) != obj {
+		at := -1
+		for i, lh := range as.Lhs {
+			if l, ok := lh.(*ast.Ident); ok && p.TypesInfo.ObjectOf(l) == obj {
+				at = i
+			}
+		}
+		if at < 0 {
 			return true
 		}
 		call, ok := as.Rhs[0].(*ast.CallExpr)
@@ -460,14 +469,20 @@ func derivedFrom(p *packages.Package, fd *ast.FuncDecl, id *ast.Ident, fn string
 			return true
 		}
 		name := ""
+		var local *ast.Ident
 		switch f := call.Fun.(type) {
 		case *ast.Ident:
 			name = f.Name
+			local = f
 		case *ast.SelectorExpr:
 			name = f.Sel.Name
 		}
-		if name != fn {
-			return true
+		if name != fn || at != 0 {
+			// `typ, reader := referenceType(sig)`: a helper of the package that hands its
+			// one string parameter to Parse / MakeReader and returns what they gave
+			if local == nil || !helperDerivesFromParam(p, local) {
+				return true
+			}
 		}
 		if v, ok := staticString(p, call.Args[0], 0); ok {
 			res = v
@@ -640,4 +655,48 @@ func movesParamBytes(f, readN, writeN *ssa.Function) (int, bool) {
 		}
 	}
 	return idx, idx >= 0
+}
+
+// helperDerivesFromParam: id names a function of the package with one string
+// parameter which it hands to Parse or MakeReader.
+func helperDerivesFromParam(p *packages.Package, id *ast.Ident) bool {
+	fobj, _ := p.TypesInfo.Uses[id].(*types.Func)
+	if fobj == nil || fobj.Pkg() != p.Types {
+		return false
+	}
+	for _, f := range p.Syntax {
+		for _, d := range f.Decls {
+			fd, ok := d.(*ast.FuncDecl)
+			if !ok || fd.Body == nil || p.TypesInfo.Defs[fd.Name] != fobj {
+				continue
+			}
+			if fd.Type.Params == nil || len(fd.Type.Params.List) != 1 || len(fd.Type.Params.List[0].Names) != 1 {
+				return false
+			}
+			param := p.TypesInfo.Defs[fd.Type.Params.List[0].Names[0]]
+			found := false
+			ast.Inspect(fd.Body, func(n ast.Node) bool {
+				call, ok := n.(*ast.CallExpr)
+				if !ok || len(call.Args) != 1 {
+					return true
+				}
+				name := ""
+				switch f := call.Fun.(type) {
+				case *ast.Ident:
+					name = f.Name
+				case *ast.SelectorExpr:
+					name = f.Sel.Name
+				}
+				if name != "Parse" && name != "MakeReader" {
+					return true
+				}
+				if a, ok := call.Args[0].(*ast.Ident); ok && p.TypesInfo.ObjectOf(a) == param {
+					found = true
+				}
+				return true
+			})
+			return found
+		}
+	}
+	return false
 }
